@@ -65,7 +65,13 @@ impl Check for C06 {
         let mut ms: Vec<M> = Vec::new();
         for k in 0..n_m {
             let mut id = [0x10 + k as u8, 0, 0, 0, 0, 0, 0, 0x30 + k as u8];
-            let own_identity = !capacity_case && ch.chance(S_CFG, 1, 10);
+            // two ports of one foreign clock (e.g. a boundary clock with two ports on this segment)
+            // are two different foreign masters: same clockIdentity, different portNumber
+            let sibling = k > 0 && !capacity_case && ch.chance(S_CFG, 1, 5);
+            if sibling {
+                id = ms[0].pid.clock;
+            }
+            let own_identity = !sibling && !capacity_case && ch.chance(S_CFG, 1, 10);
             if own_identity {
                 id = OWN;
             }
@@ -75,7 +81,10 @@ impl Check for C06 {
                 gm.identity = [0x01; 8];
             }
             let seq0 = *ch.pick(S_CFG, &[0u16, 65530, 65535, 32760, 100]);
-            ms.push(M { pid: Pid::new(id, if own_identity { 5 } else { 1 }), gm, seq: seq0, deliveries: Vec::new(), pattern: Vec::new() });
+            if sibling {
+                w.out.probe("two_ports_of_one_foreign_clock");
+            }
+            ms.push(M { pid: Pid::new(id, if own_identity { 5 } else { (k + 1) as u16 }), gm, seq: seq0, deliveries: Vec::new(), pattern: Vec::new() });
         }
         // arrival plan over 16 intervals
         let horizon = 16u128;
@@ -248,8 +257,11 @@ impl Check for C06 {
                 let steady_now: Vec<usize> = recent.iter().copied().filter(|i| steady(&ms[*i], t)).collect();
                 let cmp_of = |m: &M| Cmp::from_announce(&m.gm.body(), m.pid, own_rx);
                 let best_steady = steady_now.iter().copied().find(|i| recent.iter().all(|j| j == i || model::compare(&cmp_of(&ms[*i]), &cmp_of(&ms[*j]), true).a_wins()));
+                // two ports of one foreign clock with equal data are indistinguishable for statime's
+                // comparison ("error-2", open finding C05.outcome_depends_on_announce_order): no unique best
+                let tie_with_sibling = |b: usize| recent.iter().any(|j| *j != b && ms[*j].pid.clock == ms[b].pid.clock && !model::compare(&cmp_of(&ms[b]), &cmp_of(&ms[*j]), false).a_wins() && !model::compare(&cmp_of(&ms[b]), &cmp_of(&ms[*j]), false).b_wins());
                 if let (Some(b), Some(pb)) = (best_steady, prev_steady) {
-                    if b == pb && steady(&ms[b], prev_bmca_t) {
+                    if b == pb && steady(&ms[b], prev_bmca_t) && !tie_with_sibling(b) {
                         let better_than_own = model::compare(&cmp_of(&ms[b]), &own_cmp, true).a_wins();
                         if better_than_own {
                             let ok = if low_class { st == PState::Passive } else { st == PState::Slave && cause == Some(b) };
